@@ -23,7 +23,8 @@ EXPLANATION = ('Inductive invariant of the three loops of the real ZMQReceiver.r
                'postconditions at return, one-id-per-send on the real sender closures, id hand-over in the real MQ.recv/MQ.send, rejoin lemma.')
 
 SQ = [Shape(('all',), (0,), False), Shape(('explicit',), (0,), False), Shape(('star',), (0,), False), Shape(('all', 'all'), (0, 0), False),
-      Shape(('all', 'explicit'), (0, 0), False), Shape(('all',), (0,), False, timeout='sym', state='given')]
+      Shape(('all', 'explicit'), (0, 0), False), Shape(('all',), (0,), False, timeout='sym', state='given'),
+      Shape(('all', 'all'), (0, 0), False, timeout='sym', entry='held'), Shape(('all', 'explicit'), (0, 0), False, timeout='sym', state='given', entry='held')]
 ST = SQ + [Shape(('star', 'all'), (0, 1), False), Shape(('explicit', 'star'), (0, 0), False), Shape(('all', 'all', 'all'), (0, 0, 0), False)]
 
 
